@@ -44,6 +44,12 @@ def gen_pair(rng):
     p = rng.choice([2, 4, 5])
     conv = "e" if rng.random() < 0.12 else "f"       # exponent notation: tokens such as 1.20000e-05 (equal precision on both sides)
     a, b = gen_cfg(rng, p, conv), gen_cfg(rng, p, conv)
+    if rng.random() < 0.2:
+        # a per-column format of ANOTHER precision, the same on both sides (the two configurations still print every column with
+        # equal precision)
+        cf = {rng.choice([0, 0, 1]): "%%.%d%s" % (p + rng.choice([1, 2, 3]), conv)}
+        a["column_fmt"] = dict(cf)
+        b["column_fmt"] = dict(cf)
     r = rng.random()
     if r < 0.35:                    # pure version swap
         b = dict(a)
